@@ -51,6 +51,113 @@ func runC11(p *load.Program, r *core.Report) {
 	c11Composite(p, r)
 	byteOrderRule(p, r, "C11.E8 byte-order", "C11.E8", []string{"net/edf"}, 60)
 	c11NilVsEmpty(p, r)
+	c11ReadTiling(p, r)
+}
+
+// c11ReadTiling: E2r — in every decoder of net/edf the fixed-width reads taken from one packet
+// value (binary.BigEndian.UintN(x[a:b]) and single-byte x[k]) tile that value from offset 0 without
+// gap or overlap: the first field is read at 0, each next one where the previous ended. A read at
+// a shifted offset decodes the neighbouring bytes (the advance that follows is checked by E2).
+func c11ReadTiling(p *load.Program, r *core.Report) {
+	rule := "C11.E2r reads-tile-from-zero"
+	r.Floor(rule, 21)
+	width := map[string]int64{"Uint16": 2, "Uint32": 4, "Uint64": 8}
+	for _, f := range funcsOfPkgs(p, "net/edf") {
+		if !(strings.HasPrefix(root(f).Name(), "dec") || strings.HasPrefix(root(f).Name(), "registerType") || strings.HasPrefix(root(f).Name(), "decodeType")) {
+			continue
+		}
+		type rng struct{ lo, hi int64 }
+		by := map[ssa.Value][]rng{}
+		var order []ssa.Value
+		add := func(base ssa.Value, lo, hi int64) {
+			if _, ok := by[base]; !ok {
+				order = append(order, base)
+			}
+			for _, x := range by[base] {
+				if x.lo == lo && x.hi == hi {
+					return
+				}
+			}
+			by[base] = append(by[base], rng{lo, hi})
+		}
+		symbolic := map[ssa.Value]bool{}
+		eachInstr(f, func(in ssa.Instruction) {
+			switch x := in.(type) {
+			case *ssa.Call:
+				sf := staticCallee(x.Common())
+				if sf == nil || sf.Pkg == nil || sf.Pkg.Pkg.Path() != "encoding/binary" {
+					return
+				}
+				w, ok := width[sf.Name()]
+				if !ok || len(x.Common().Args) < 2 {
+					return
+				}
+				a := x.Common().Args[1]
+				if sl, ok := a.(*ssa.Slice); ok && isByteSlice(sl.X.Type()) {
+					lo := int64(0)
+					if sl.Low != nil {
+						c, okc := constInt(sl.Low)
+						if !okc {
+							symbolic[sl.X] = true
+							return
+						}
+						lo = c
+					}
+					add(sl.X, lo, lo+w)
+					return
+				}
+				if isByteSlice(a.Type()) {
+					add(a, 0, w)
+				}
+			case *ssa.UnOp:
+				if x.Op != token.MUL {
+					return
+				}
+				ia, ok := x.X.(*ssa.IndexAddr)
+				if !ok || !isByteSlice(ia.X.Type()) {
+					return
+				}
+				if c, okc := constInt(ia.Index); okc {
+					add(ia.X, c, c+1)
+				}
+			}
+		})
+		n := 0
+		for _, base := range order {
+			rs := by[base]
+			if symbolic[base] {
+				continue
+			}
+			// only bases with at least one multi-byte read are of interest (pure tag peeks are E1's business)
+			multi := false
+			for _, x := range rs {
+				if x.hi-x.lo > 1 {
+					multi = true
+				}
+			}
+			if !multi {
+				continue
+			}
+			sort.Slice(rs, func(i, j int) bool { return rs[i].lo < rs[j].lo })
+			n++
+			key := fmt.Sprintf("C11.E2r|%s|packet#%d", fname(f), n)
+			inst := "the fixed-width reads from one packet value start at offset 0 and follow each other without gap or overlap"
+			bad := ""
+			if rs[0].lo != 0 {
+				bad = fmt.Sprintf("the first read starts at offset %d", rs[0].lo)
+			}
+			for i := 1; i < len(rs) && bad == ""; i++ {
+				if rs[i].lo != rs[i-1].hi {
+					bad = fmt.Sprintf("read [%d:%d] follows [%d:%d]", rs[i].lo, rs[i].hi, rs[i-1].lo, rs[i-1].hi)
+				}
+			}
+			if bad != "" {
+				r.Bad(rule, key, fname(f), p.Pos(f.Pos()), inst, bad+": the value is decoded from the wrong bytes")
+			} else {
+				r.OK(rule, key, fname(f), p.Pos(f.Pos()), inst, fmt.Sprintf("%d read(s) tile [0:%d]", len(rs), rs[len(rs)-1].hi))
+			}
+		}
+	}
 }
 
 // c11NilVsEmpty: E9 — nil and empty collections are kept apart. In every collection decoder (a
